@@ -141,6 +141,9 @@ class NodeRef(Ref):
         if name == 'kind' and isinstance(val, KindConst):
             st.heap[('N', 'isfork')] = z3.Store(st.heap[('N', 'isfork')], self.oid, val.isfork)
             return
+        if name == 'kind' and isinstance(val, str):
+            st.heap[('N', 'isfork')] = z3.Store(st.heap[('N', 'isfork')], self.oid, z3.BoolVal(val == '__fork__'))
+            return
         if name in ('ins', 'outs') and isinstance(val, EmptyPins):
             st.heap[('N', name + '_len')] = z3.Store(st.heap[('N', name + '_len')], self.oid, 0)
             return
@@ -158,6 +161,8 @@ class CircRef(Ref):
             return ObjList(name)
         if name in ('forks', 'cells'):
             return NameTable(name)
+        if name == 'get_or_add_fork':
+            return bound_method(ex, 'Circuit.get_or_add_fork', self)          # inlined from its current source
         raise NotInSubset(f'circuit.{name}')
 
 
@@ -264,6 +269,12 @@ class NameTable(Model):
         if not isinstance(key, NameVal):
             raise NotInSubset('name table key')
         return SBool(st.heap[('C', self.name + '_dom')][key.e])
+
+    def m_getitem(self, ex, st, key, node):
+        if not isinstance(key, NameVal):
+            raise NotInSubset('name table key')
+        ex.prove(st, f'no-exception:KeyError {self.name}[name]', st.heap[('C', self.name + '_dom')][key.e], node)
+        return NodeRef(st.heap[('C', self.name + '_val')][key.e])
 
     def m_setitem(self, ex, st, key, val, node):
         if not isinstance(key, NameVal) or not isinstance(val, NodeRef):
